@@ -40,19 +40,19 @@ MANIFEST = {
              "order, step or repetition) what comes back for each selected series is set_data of its own rows at the written "
              "periods: the restriction to lo..hi, trimmed, for consecutive runs, and for ANY periods (stepped, descending, repeated) the "
              "final trimmed series has the original's row at every written period and a NaN row elsewhere (`csv_selection_rowAt`, "
-             "`trim_changes_no_row`); the written grid is rectangular for any mix of block lengths and variant counts "
+             "`trim_changes_no_row`, end to end with input-level hypotheses: `csv_selection_end_to_end`); the written grid is rectangular for any mix of block lengths and variant counts "
              "(`csv_grid_rectangular`). "
              "Dataslate: `slate_roundtrip_cells/_series/_absent` -- to_databox(from_databox(db, names, span)) binds every selected "
              "name to a series on the span whose cell (period i, variant v) is the input cell of column min(v, k-1) (NaN outside the "
              "series, NaN for absent names), changed only by a declared fallback (NaN cells) or overwrite (all cells); other "
-             "frequencies are rejected; to_databox(trim=True) is the trimmed and to_databox(span='base') the base-column restriction of "
+             "frequencies are rejected; clipping is applied before fallbacks and overwrites (`nonbase_columns_carry_declared_fills`); to_databox(trim=True) is the trimmed and to_databox(span='base') the base-column restriction of "
              "the full output; after any sequence of remove_periods_from_start/_end and add_periods_to_end (induction) a cell is the "
              "converted value iff no operation removed its period (also as one statement with the final to_databox: "
              "`slate_ops_then_output`), and the base periods are the declared ones still alive. Databox "
              "operations (rename, remove, keep, copy, overlay, underlay, clip, prepend, merge): every operation and every sequence "
              "(induction) leaves all entries outside the selected names identical and in order; the selected names become the "
              "abstract series op of the two inputs (overlay/underlay/prepend/clip) resp. satisfy the dictionary equations of "
-             "keep/remove/rename (simultaneous: `rename_no_value_lost` -- swaps, chains and cycles lose nothing)/merge (`mergeSpec`); overlay/underlay/prepend apply exactly "
+             "keep/remove/rename (simultaneous: `rename_no_value_lost` -- swaps, chains and cycles lose nothing)/copy with renaming (non-strict)/merge (`mergeSpec`); names are resolved as (source, target) pairs (`resolvePairs_filters_pairs`); the rejection branches are theorems too (missing names, non-series under overlay, a file without data rows); overlay/underlay/prepend apply exactly "
              "when both items are series of the same known frequency, integer included; in a sequence a name ends up as the last "
              "operation selecting it left it; option resolution of the spellings of one call (`merge_strategy_resolution`: the legacy "
              "`action=` decides when given, else the explicit strategy, else stack; `by_merging` = merge into an empty databox; "
